@@ -6,7 +6,7 @@ run of the same runner on the same inputs."""
 from .. import crop
 
 CLAIMS_PREFIX = ("reap_value", "reap_raise", "direct", "store", "last_result", "batches", "outcome_sow", "outcome_grow",
-                 "outcome_reload", "outcome_resow", "outcome_fix_fn", "outcome_change_const", "obs_grow", "obs_sow")
+                 "outcome_reload", "outcome_resow", "outcome_fix_fn", "outcome_change_const", "outcome_direct_harvest", "obs_grow", "obs_sow")
 
 
 def configs(tier):
@@ -27,7 +27,7 @@ def configs(tier):
                 kind2 = kind
             n = crop.n_of(dict(grid=grid, cases=cases))
             for bmode, bval in [("none", 1), ("size", 2), ("count", 2), ("count", n + 1), ("size", n)]:
-                for sc, ss in ([(0, -1), (0, 1), (0, 2)] if kind2 == "combos" else [(0, -1), (1, -1), (2, -1)]):
+                for sc, ss in ([(0, -1), (0, 1), (0, 2), (1, -1), (2, 1)] if kind2 == "combos" else [(0, -1), (1, -1), (2, -1)]):
                     i += 1
                     out.append(mk(grid, nca=nca, cases=cases, kind=kind2, bmode=bmode, bval=bval, bwhere=("ctor", "sow")[i % 2],
                                   shufCtor=sc, shufSow=ss, farmer=farmer))
@@ -88,6 +88,12 @@ def run(rep):
         # that reaches the workers through a re-sow
         dict(name="C06_campaigns", configs=campaign_configs(), acts=["grow_missing", "reap_default", "campaign2", "reload"],
              max_steps=6, mode="sim", num=300 if q else 3000, need=["DoChangeConst"]),
+        # other data harvested directly into the same file before / after the sow must survive the crop's reap, also when
+        # the crop (and with it the pickled Harvester) is reloaded by name
+        dict(name="C06_direct", configs=[crop.mk([3], kind="combos", bmode="count", bval=2, farmer="harvester"),
+                                         crop.mk([2], nca=1, cases=[[1], [3]], kind="combos", bmode="none", farmer="harvester", shufSow=1)],
+             acts=["direct_harvest", "grow_missing", "reload", "reap_default", "reap_partial", "grow"], max_steps=6, mode="sim",
+             num=300 if q else 3000, need=["DoDirectHarvest"]),
         dict(name="C06_fixfn", configs=fixfn_configs(), acts=["grow", "grow_missing", "fix_fn", "resow", "reload", "reap_default"],
              max_steps=7, mode="sim", num=300 if q else 3000, need=["DoFixFn", "DoReSow"]),
     ]
